@@ -271,6 +271,8 @@ def run(ctx: Ctx) -> None:
 NODE = "cartgraph/node.py"
 G = "cartgraph/graph.py"
 MUTANTS = [
+    ("rerun-defaults-swapped", "cartgraph/node.py", "        if self.params.get(\"replay\"):\n            rerun_status = self.params.get_list(", "        if not self.params.get(\"replay\"):\n            rerun_status = self.params.get_list(", "d"),
+    ("rerun-default-not-all", "cartgraph/node.py", "rerun_status = self.params.get_list(\"rerun_status\", []) or all_statuses", "rerun_status = self.params.get_list(\"rerun_status\", [])", "d"),
     ("retry-prefix-dropped", "plugins/runner.py", "        if run_times > 0:\n            node.prefix = original_prefix + f\"r{run_times}\"\n", "", "2"),
     ("uid-before-prefix", RUNNER, "        if run_times > 0:\n            node.prefix = original_prefix + f\"r{run_times}\"\n        uid = node.id_test.uid",
      "        uid = node.id_test.uid\n        if run_times > 0:\n            node.prefix = original_prefix + f\"r{run_times}\"", "2"),
